@@ -1,14 +1,14 @@
 SPECIFICATION Spec
 CONSTANTS
   MaxReads = 2
-  ChunkSizes = {1, 2}
+  ChunkSizes = {1, 2, 3, 4}
   ReadErrs = {"EOF", "RST", "EPIPE", "timeout", "other", "closed"}
   WriteErrs = {"EPIPE", "RST", "timeout", "other", "closed"}
-  ForwardWithErr = FALSE
+  ForwardWithErr = TRUE
   DialMayFail = TRUE
   BufCap = 2
-  BufMode = "private"
+  BufMode = "shared"
 VIEW view
-INVARIANTS TypeOK PrefixFidelity NothingReadIsLost CountsMatch BothClosed EndedClosesBoth NoExtraClose GaugeBalanced
+INVARIANTS TypeOK NothingReadIsLost InFlightOnly CountsMatch BothClosed EndedClosesBoth NoExtraClose GaugeBalanced PrefixFidelity
 
 CHECK_DEADLOCK FALSE
